@@ -105,7 +105,11 @@ orc_mips_emit_label (OrcCompiler *compiler, unsigned int label)
 static void
 orc_mips_add_fixup (OrcCompiler *compiler, int label, int type)
 {
-  ORC_ASSERT (compiler->n_fixups < ORC_N_FIXUPS);
+  if (compiler->n_fixups >= ORC_N_FIXUPS) {
+    /* a compile error (the program is emulated), not an abort */
+    orc_compiler_error (compiler, "too many fixups");
+    return;
+  }
 
   compiler->fixups[compiler->n_fixups].ptr = compiler->codeptr;
   compiler->fixups[compiler->n_fixups].label = label;
